@@ -561,7 +561,15 @@ class SlotNode(BaseNode):
             # This makes sure that the render context used outside of a component
             # is the same as the one used inside the slot.
             # See https://github.com/django-components/django-components/pull/859
-            if len(used_ctx.render_context.dicts) > 1 and "block_context" in used_ctx.render_context.dicts[-2]:
+            #
+            # NOTE: This applies only to the content that came from OUTSIDE of the component (the fill).
+            # The slot's own default content is part of this component's template, so any `{% block %}`
+            # tags in it must be resolved against the blocks of this component's template.
+            if (
+                slot_fill.is_filled
+                and len(used_ctx.render_context.dicts) > 1
+                and "block_context" in used_ctx.render_context.dicts[-2]
+            ):
                 render_ctx_layer = used_ctx.render_context.dicts[-2]
             else:
                 # Otherwise we simply re-use the last layer, so that following logic uses `with` in either case
